@@ -68,7 +68,11 @@ def _sig_multigetnext_cut(v):
     )
 
 
-@signature("auth-digest-over-reserialised-message")
-def _sig_reserialised(v):
+@signature("x690-indefinite-length-loop")
+def _sig_x690_loop(v):
     f = v.get("facts", {})
-    return f.get("exception") == "AuthenticationError" and f.get("authentic_response_reserialisation_differs") is True
+    return (
+        v.get("kind") == "processing-exceeds-cpu-budget"
+        and f.get("indefinite_length_octet") is True
+        and f.get("in_x690") is True
+    )
